@@ -21,7 +21,7 @@ EXPLANATION = (
     "the two margins is a sum-preserving pair (+shift / -shift) or the final non-clip clamp; (4) GridFlow: the space budget of the row-wrap test exceeds the row's drawn width by exactly "
     "one separator, i.e. a cell is added to a row only if separator + cell still fit."
     ' Added after seed round 3: (5) AXIS - placement options reach parameters of their own axis (align/width/left/right vs valign/height/top/bottom) and no argument carries the name of a different parameter; (6) ACCUM - Columns.column_widths charges / refunds its budget for every column it passes.'
-    ' Round 4: (7) the space a relative size is a percentage of is clamped to >= 0 before scaling, in both placement helpers; (8) memo vs child queries (C06.7); (9) Overlay measures a flow top widget at the width top_w_size() renders it with (roles matched through the caller).'
+    ' Round 4: (7) the space a relative size is a percentage of is clamped to >= 0 before scaling, in both placement helpers; (8) memo vs child queries (C06.7); (9) Overlay measures a flow top widget at the width top_w_size() renders it with (roles matched through the caller). Round 5: (2, extended) the share stored into the result is the share taken off the remainder; (10) no size expression counts one margin of a pair twice and its partner not at all.'
 )
 NOT_DECIDED = "Non-negativity of every child dimension, proportionality within one column, focus-column visibility, min-width interaction beyond the ordering clause, alignment rounding - integer-rounding properties over ranges."
 ASSUMPTIONS = []
@@ -76,6 +76,20 @@ def rule_apportion(ctx: Ctx) -> RuleResult:
                 back = cfg.reachable([n], avoid=dec, labels=("n", "T", "F"))
                 if not dec or head in back:
                     rr.add(finding("ORDER", fi, a, f"after `{norm(a, 50)}` an iteration can return to the loop head without {what}: the remaining {'space' if nm == R else 'weight'} is not updated, so the shares no longer sum to the available space", construct=f"running remainder {nm} not decremented"))
+            # what is handed out is what is taken off the remainder: the store into the result (widths[i] = .. /
+            # rows.append(..)) inside this loop carries the share variable itself, not a value derived from it
+            for st in ast.walk(head.ast):
+                val = None
+                if isinstance(st, ast.Assign) and isinstance(st.targets[0], ast.Subscript) and not isinstance(st.value, ast.Constant):
+                    val = st.value
+                elif isinstance(st, ast.Call) and isinstance(st.func, ast.Attribute) and st.func.attr == "append" and st.args:
+                    val = st.args[0]
+                if val is None or share not in {x.id for x in ast.walk(val) if isinstance(x, ast.Name)}:
+                    continue
+                same = isinstance(val, ast.Name) and val.id == share
+                rr.inst(f"{short(fi)}: handed out {norm(val, 30)}", True, {"function": short(fi), "stored": norm(st, 50), "subtracted": share, "same": same})
+                if not same:
+                    rr.add(finding("ORDER", fi, st, f"`{norm(st, 50)}` hands out `{norm(val, 40)}` while `{R} -= {share}` takes only `{share}` off the remaining space: whenever the two differ (a share lifted to the minimum width) the widths add up to more than the available columns", construct=f"handed out {norm(val, 40)} but subtracted {share}"))
             if clamped:
                 it = head.ast.iter
                 ok = isinstance(it, ast.Call) and isinstance(it.func, ast.Name) and it.func.id == "sorted" and not any(kw.arg == "reverse" for kw in it.keywords)
@@ -312,6 +326,40 @@ def rule_overlay_measure(ctx: Ctx) -> RuleResult:
     return rr
 
 
+def rule_margin_pairs(ctx: Ctx) -> RuleResult:
+    """The room beside the fixed margins is `available - left - right` (`- top - bottom`): the two margins of an
+    axis enter such an expression together.  An expression in which one margin of a pair is counted twice and its
+    partner not at all (`maxcol - self.left - self.left`) is a copy-paste slip: with asymmetric margins the child is
+    given too little room or the other margin is squeezed."""
+    p = ctx.p
+    rr = RuleResult("PAIR", "C19.10", "no size expression counts one margin of a pair (left/right, top/bottom) twice and its partner not at all", floor=6)
+    PAIRS = (("left", "right"), ("top", "bottom"))
+    for mn in MODULES:
+        for fi in p.modules[mn].functions:
+            seen = set()
+            for n in fi.own_nodes():
+                if not (isinstance(n, ast.BinOp) and isinstance(n.op, (ast.Add, ast.Sub))):
+                    continue
+                L = linear(n)
+                if not L:
+                    continue
+                for a, b in PAIRS:
+                    ca = sum(v for k, v in L.items() if k in (f"self.{a}", a, f"self._{a}"))
+                    cb = sum(v for k, v in L.items() if k in (f"self.{b}", b, f"self._{b}"))
+                    if not (ca or cb):
+                        continue
+                    txt = ast.unparse(n)
+                    if txt in seen:
+                        continue
+                    seen.add(txt)
+                    if ca and cb:
+                        rr.inst(f"{short(fi)}:{txt[:50]}", True, {"function": short(fi), "expression": txt[:80]} if len(rr.samples) < 6 else None)
+                    if (abs(ca) >= 2 and cb == 0) or (abs(cb) >= 2 and ca == 0):
+                        twice, never = (a, b) if abs(ca) >= 2 else (b, a)
+                        rr.add(finding("PAIR", fi, n, f"`{txt[:80]}` counts the {twice} margin twice and the {never} margin not at all: with {twice} != {never} the child is packed into the wrong room (too narrow when {twice} > {never}; otherwise the {never} margin is squeezed below its configured value)", construct=f"margin {twice} counted twice: {txt[:60]}"))
+    return rr
+
+
 def _memo_children(ctx: Ctx):
     """stale memoised widths hand a packed child neither its own size nor nothing (C06.7 is a necessary condition here)"""
     from . import c06
@@ -335,6 +383,7 @@ def run(ctx: Ctx):
         rule_relative_space_clamp(ctx),
         _memo_children(ctx),
         rule_overlay_measure(ctx),
+        rule_margin_pairs(ctx),
     ]
 
 
@@ -344,6 +393,8 @@ _PD = "urwid/widget/padding.py"
 _FL = "urwid/widget/filler.py"
 _G = "urwid/widget/grid_flow.py"
 MUTANTS = [
+    Mut("padding-pack-left-margin-twice", _PD, "Padding.padding_values", "maxwidth = max(maxcol - self.left - self.right, self.min_width or 0)", "maxwidth = max(maxcol - self.left - self.left, self.min_width or 0)", "PAIR|widget.padding.Padding.padding_values"),
+    Mut("columns-clamp-after-subtraction", _C, "Columns.column_widths", "                width = max(int(grow * weight / wtotal + 0.5), self.min_width)\n\n                widths[i] = width\n", "                width = int(grow * weight / wtotal + 0.5)\n\n                widths[i] = max(width, self.min_width)\n", "ORDER|widget.columns.Columns.column_widths|handed out"),
     Mut("overlay-flow-rows-at-full-width", "urwid/widget/overlay.py", "Overlay.calculate_padding_filler", "self.top_w.rows((maxcol - left - right,), focus=focus)", "self.top_w.rows((maxcol,), focus=focus)", "SIB|widget.overlay.Overlay.calculate_padding_filler"),
     Mut("twin-overlay-flow-rows-spelling", "urwid/widget/overlay.py", "Overlay.calculate_padding_filler", "self.top_w.rows((maxcol - left - right,), focus=focus)", "self.top_w.rows((maxcol - (left + right),), focus=focus)", twin=True),
     Mut("relative-height-from-negative-space", "urwid/widget/filler.py", "calculate_top_bottom_filler", "maxheight = max(maxrow - top - bottom, 0)", "maxheight = maxrow - top - bottom", "PASS|widget.filler.calculate_top_bottom_filler"),
